@@ -352,7 +352,7 @@ Section FrameRender.
        with the two related contexts as parents *)
     Lemma ev_call_macro_sim c1 c2 tpl nm args :
       c12_agree_mod N (ts_sibling_macros env tpl) c1 c2 ->
-      (forall e, eok e = true -> ev c1 e = ev c2 e) ->
+      (forall params body p de, ts_find_macro env tpl nm = Some (params, body) -> In (p, Some de) params -> ev c1 de = ev c2 de) ->
       ev_call_macro ev rend env c1 tpl nm args = ev_call_macro ev rend env c2 tpl nm args.
     Proof.
       intros Hag Hevc. rewrite !C12_binding_proof. unfold c12_call.
@@ -360,8 +360,7 @@ Section FrameRender.
       destruct (Henv tpl nm params body E) as [Hps Hbody].
       destruct (existsb vo_has_callable args || negb (ev_macro_body_plain body)); [reflexivity|].
       rewrite (c12_param_values_evc_ext (ev c1) (ev c2) args params 0).
-      2:{ intros p de Hin. apply Hevc. unfold c12_params_ok in Hps. rewrite forallb_forall in Hps.
-          specialize (Hps (p, Some de) Hin). exact Hps. }
+      2:{ intros p de Hin. apply (Hevc params body p de eq_refl Hin). }
       apply ev_bind_ext. intro bs.
       assert (Hrel : c12_rel (c12_macro_ctx env c1 tpl bs) (c12_macro_ctx env c2 tpl bs)).
       { unfold c12_macro_ctx. generalize bs. clear bs. intro bs.
@@ -389,7 +388,9 @@ Section FrameRender.
       apply c12_rsim_rexpr; [exact Hr|]. intro v. destruct (vo_view v) eqn:V.
       all: try (destruct (vo_to_str v); [apply c12_rsim_ret|apply c12_rsim_fail]; exact Hr).
       - rewrite (ev_call_macro_sim m1 m2 tpl name args (c12_agree_mod_of_agree _ m1 m2 Hag)).
-        2:{ intros e' He'. apply Hev; assumption. }
+        2:{ intros params body p de Hf Hin. apply Hev; [exact Hag|].
+            destruct (Henv tpl name params body Hf) as [Hps _]. unfold c12_params_ok in Hps. rewrite forallb_forall in Hps.
+            exact (Hps (p, Some de) Hin). }
         destruct (ev_call_macro ev rend env m2 tpl name args) as [r t]. rsim_done Hr.
       - destruct (c12_rel_no_block m1 m2 Hr) as [B1 B2]. unfold ev_parent_call. rewrite B1, B2.
         apply c12_rsim_fail. exact Hr.
@@ -452,17 +453,70 @@ Section FrameRender.
       cbn [c12_nsok forallb] in Hn. apply andb_prop in Hn. destruct Hn as [Hn Hrest].
       apply c12_rsim_rseq.
       + apply (render_node_sim (eval fu env)); [|exact IH|exact Hr|exact Hn].
-        intros c1 c2 e Hag He. apply eval_agree; assumption.
+        intros c1 c2 e Hag He. apply (eval_agree N env); assumption.
       + intros c1 c2 Hc. apply IH; assumption.
   Qed.
 
   (* the same call from two callers that answer alike for N, the macros of the called macro's template excepted *)
-  Lemma C12_paths_agree_proof_sec : forall fu c1 c2 tpl nm args,
+  Lemma C12_paths_agree_sec : forall fu c1 c2 tpl nm args,
     c12_agree_mod N (ts_sibling_macros env tpl) c1 c2 ->
-    (forall e, eok e = true -> eval fu env c1 e = eval fu env c2 e) ->
+    (forall params body p de, ts_find_macro env tpl nm = Some (params, body) -> In (p, Some de) params ->
+       eval fu env c1 de = eval fu env c2 de) ->
     ev_call_macro (eval fu env) (render fu env) env c1 tpl nm args = ev_call_macro (eval fu env) (render fu env) env c2 tpl nm args.
   Proof.
     intros fu c1 c2 tpl nm args Hag Hevc. apply ev_call_macro_sim; [|exact Hag|exact Hevc].
     intros m1 m2 ns. apply render_sim.
   Qed.
 End FrameRender.
+
+Lemma c12_in_minus N S x : c12_in (c12_minus N S) x = true -> c12_in N x = true /\ assoc_bytes S x = None.
+Proof.
+  unfold c12_in, ev_mem, c12_minus. induction N as [|y r IH]; cbn [filter existsb]; [discriminate|].
+  destruct (assoc_bytes S y) eqn:E; cbn [existsb].
+  - intro H. destruct (IH H) as [H1 H2]. rewrite H1, orb_true_r. split; [reflexivity|exact H2].
+  - intro H. apply orb_prop in H. destruct H as [H|H].
+    + rewrite H. split; [reflexivity|]. apply bytes_eqb_eq in H. subst y. exact E.
+    + destruct (IH H) as [H1 H2]. rewrite H1, orb_true_r. split; [reflexivity|exact H2].
+Qed.
+
+Lemma c12_agree_minus N S c1 c2 : c12_agree_mod N S c1 c2 -> c12_agree (c12_minus N S) c1 c2.
+Proof.
+  intros [Hs Ha]. split; [exact Hs|]. intros x Hx. destruct (c12_in_minus N S x Hx) as [Hn HS].
+  destruct (Ha x Hn) as [Hv [Ho Hm]]. split; [exact Hv|]. split; [apply Hm; exact HS|exact Ho].
+Qed.
+
+(* C12_paths_agree. Every macro of the environment is self-contained over N; the two callers answer alike for N, except
+   that they need not see the same macros under the names of the called macro's own template (the defining template
+   sees them all, an importer none); the defaults of the called macro, which are evaluated in the caller's context,
+   do not look those names up. Then the call gives the same output and the same trace from both. *)
+Lemma C12_paths_agree_proof : forall N env fu c1 c2 tpl nm args,
+  c12_in N b#"loop" = true -> c12_env_ok N env ->
+  c12_agree_mod N (ts_sibling_macros env tpl) c1 c2 ->
+  (forall params body, ts_find_macro env tpl nm = Some (params, body) ->
+     c12_params_ok (c12_minus N (ts_sibling_macros env tpl)) params = true) ->
+  ev_call_macro (eval fu env) (render fu env) env c1 tpl nm args = ev_call_macro (eval fu env) (render fu env) env c2 tpl nm args.
+Proof.
+  intros N env fu c1 c2 tpl nm args Hl Henv Hag Hdef. apply (C12_paths_agree_sec N env Hl Henv); [exact Hag|].
+  intros params body p de Hf Hin. apply (eval_agree (c12_minus N (ts_sibling_macros env tpl)) env).
+  - apply c12_agree_minus. exact Hag.
+  - specialize (Hdef params body Hf). unfold c12_params_ok in Hdef. rewrite forallb_forall in Hdef. exact (Hdef (p, Some de) Hin).
+Qed.
+
+(* the decidable form of the hypothesis *)
+Lemma assoc_bytes_in {A} (l : list (bytes * A)) k v : assoc_bytes l k = Some v -> In (k, v) l.
+Proof.
+  induction l as [|[k' v'] r IH]; cbn [assoc_bytes]; [discriminate|].
+  destruct (bytes_eqb k' k) eqn:E; intro H.
+  - apply bytes_eqb_eq in E. inversion H; subst. left. reflexivity.
+  - right. apply IH. exact H.
+Qed.
+
+Lemma c12_env_okb_sound N env : c12_env_okb N env = true -> c12_env_ok N env.
+Proof.
+  intros H tpl nm params body Hf. unfold ts_find_macro, ts_lookup in Hf.
+  destruct (assoc_bytes (e_tpls env) tpl) as [ns|] eqn:E; [|discriminate].
+  apply assoc_bytes_in in E. apply assoc_bytes_in in Hf.
+  unfold c12_env_okb in H. rewrite forallb_forall in H. specialize (H (tpl, ns) E). cbn [snd] in H.
+  rewrite forallb_forall in H. specialize (H (nm, (params, body)) Hf). cbn [fst snd] in H.
+  apply andb_prop in H. exact H.
+Qed.
